@@ -413,7 +413,7 @@ def pick_segment(rng, n, d, want):
 SIMPLE = [('get', 20), ('set', 9), ('exists', 6), ('count', 6), ('select', 8), ('first', 9), ('gfms', 3), ('addseg', 8),
           ('addloop', 6), ('addnode', 4), ('delseg', 5), ('delnode', 5), ('delete', 2), ('copy', 4), ('iter', 2), ('iterloop', 2),
           ('segcount', 1), ('curline', 1), ('id', 1), ('curpath', 1), ('errct', 1), ('parent', 2), ('child', 2),
-          ('hold_delete', 3), ('copy_edit', 3), ('set_get', 4), ('agree', 3)]
+          ('hold_delete', 3), ('copy_edit', 3), ('set_get', 4), ('agree', 3), ('pad_set', 3)]
 
 
 def weighted(rng, table):
@@ -588,6 +588,28 @@ def gen_script(rng, text, loop_id, index, length=None, charset='B', exclude='', 
                 emit(op('get', r, p))
                 emit(op('set', r, p, pick_value(rng, d)))
                 emit(op('get', r, p))
+            elif kind == 'pad_set':
+                # extend a segment by several positions in one step, then write into one of the blank positions created on the way:
+                # the blank positions must stay independent of each other
+                r = pick_reg('S')
+                if node_kind(regs[r]) == 'L' and regs[r].type is not None:
+                    t = free_reg()
+                    emit(op('first', r, pick_path(rng, regs[r], 'seg'), t))
+                    r = t
+                if node_kind(regs[r]) != 'S' or regs[r].seg_data is None or regs[r].type is None:
+                    continue
+                sd = regs[r].seg_data
+                sid = sd.get_seg_id() or 'XX'
+                n = len(sd.elements)
+                far = n + rng.choice([3, 3, 4, 6])
+                if far > 99:
+                    continue
+                emit(op('set', r, '%s%02d' % (sid, far), pick_value(rng, d)))
+                slot = rng.randint(n + 1, far - 1)
+                emit(op('set', r, '%s%02d-%d' % (sid, slot, rng.choice([1, 2, 3])), pick_value(rng, d)))
+                for k in range(n + 1, far + 1):
+                    emit(op('get', r, '%s%02d' % (sid, k)))
+                emit(op('parent', r, free_reg()))
             elif kind == 'agree':
                 r = pick_reg('L')
                 if node_kind(regs[r]) is None:
